@@ -338,7 +338,8 @@ impl Iterator for AddressIterator {
         match self.remain.checked_sub(1) {
             Some(x) => {
                 let ret = self.current;
-                self.current += 1;
+                // a range may end at u16::MAX, in which case there is no next address
+                self.current = self.current.wrapping_add(1);
                 self.remain = x;
                 Some(ret)
             }
